@@ -405,6 +405,7 @@ def gen_case(rng, profile=None):
     env["eqDests"] = stats(prog)["ops"].get("removeDest", 0) == 0 and rng.random() < 0.3
     env["sameExcObj"] = rng.random() < 0.3
     env["warnErrors"] = rng.random() < 0.3
+    env["fileDests"] = rng.random() < 0.3
     return dict(env=env, prog=prog)
 
 
